@@ -3,7 +3,7 @@
 # Confirms a seeded change independently in a scratch worktree (applies, builds, existing tests of
 # the touched packages pass, demo fails with / passes without), then runs the /verif quick check(s)
 # against the changed tree. Writes /tmp/seedcheck/<PROP>-<m>.log and .json
-export GOFLAGS=-mod=mod GOPROXY=off
+export GOFLAGS="-mod=mod -trimpath" GOPROXY=off
 P=$1; M=$2; shift 2; EXTRA="$@"
 SRC=/tmp/seedout/$P/$M
 WT=/tmp/sc-$P-$M
@@ -43,3 +43,5 @@ for C in $P $EXTRA; do
 done
 echo "RESULT prop=$P m=$M existing_tests_rc=$EXIST demo_with_rc=$DW demo_without_rc=$DWO checks=$DET"
 cd /; git -C /repo worktree remove --force $WT
+rm -rf /tmp/seedcheck/out-$P-$M-*/bin /tmp/seedcheck/out-$P-$M-*/harness 2>/dev/null
+find /root/.cache/go-build -type f -mmin +240 -delete 2>/dev/null
